@@ -194,6 +194,8 @@ Vpn(l, rd, p) == [labels |-> <<l>>, rd |-> rd, p |-> p]
 VpnS(ls, rd, p) == [labels |-> ls, rd |-> rd, p |-> p]
 Ipv6Pool ==
    {Mp("ipv6", TRUE, nh, <<p>>) : nh \in {Nh6, Nh6 \o Ll6}, p \in AllLen6}
+   \* (speakers that peer over link-local addresses put the same address into both next-hop slots)
+   \cup {Mp("ipv6", TRUE, nh, <<P6v6[i]>>) : nh \in {Nh6 \o Nh6, Ll6 \o Ll6}, i \in {1, 3, 6}}
    \cup {Mp("ipv6", FALSE, <<>>, <<p>>) : p \in AllLen6}
    \cup {Mp("ipv6", r, IF r THEN Nh6 ELSE <<>>, <<P6v6[i], P6v6[j]>>) : r \in BOOLEAN, i, j \in 1..6}
    \cup {Mp("ipv6", TRUE, Nh6, <<P6v6[i], P6v6[j], P6v6[k]>>) : i, j, k \in {1, 3, 6}}
